@@ -57,6 +57,19 @@ impl Future for CoopYield {
         if self.0 { Poll::Ready(()) } else { self.0 = true; desync::verif::log("api", "COOPYIELD", 0, String::new()); cx.waker().wake_by_ref(); Poll::Pending }
     }
 }
+/// the processing of a gated pipe item: waits until the consumer has received every earlier item of the stream
+struct ConsumerSaw { ctx: Arc<Ctx>, k: usize, item: u64 }
+impl Future for ConsumerSaw {
+    type Output = ();
+    fn poll(self: Pin<&mut Self>, cx: &mut Context) -> Poll<()> {
+        let sc = &self.ctx.streams[self.k];
+        let mut ws = sc.gate_wakers.lock().unwrap();
+        if sc.received.lock().unwrap().len() as u64 >= self.item { return Poll::Ready(()); }
+        desync::verif::log("api", "ITEMWAIT", self.item as usize, String::new());
+        ws.push(cx.waker().clone());
+        Poll::Pending
+    }
+}
 /// wakes its own waker and panics in the same poll: the queue is found 'awoken while running' by the guard that handles the panic
 struct WakeThenPanic(usize);
 impl Future for WakeThenPanic {
@@ -96,6 +109,7 @@ pub struct StreamCore {
     st: StdMutex<(std::collections::VecDeque<u64>, bool, Option<std::task::Waker>)>,
     pub pushed: AtomicU64, pub released: AtomicBool, pub processed: StdMutex<Vec<u64>>, pub received: StdMutex<Vec<u64>>, pub ended_seen: AtomicBool,
     pub polls_after_gone: AtomicUsize, pub slow: StdMutex<std::collections::HashSet<u64>>,
+    pub gated: StdMutex<std::collections::HashSet<u64>>, pub gate_wakers: StdMutex<Vec<std::task::Waker>>,
 }
 pub struct HStream { core: Arc<StreamCore> }
 impl futures::Stream for HStream {
@@ -437,11 +451,12 @@ pub fn exec_op(ctx: &Arc<Ctx>, op: &Op, caller: usize, nested: bool, local: &mut
             return;
         }
         Op::ExpectPanic(q) => { expect_panic(ctx, *q, caller); return; }
-        Op::Produce(k, n) | Op::ProduceSlow(k, n) => {
+        Op::Produce(k, n) | Op::ProduceSlow(k, n) | Op::ProduceGated(k, n) => {
             let slow = matches!(op, Op::ProduceSlow(_, _));
+            let gated = matches!(op, Op::ProduceGated(_, _));
             for _ in 0..*n {
                 let sc = &ctx.streams[*k];
-                let w = { let mut st = sc.st.lock().unwrap(); desync::verif::log("api", "PRODUCE", *k, String::new()); let x = sc.pushed.fetch_add(1, SeqCst); if slow { sc.slow.lock().unwrap().insert(x); } st.0.push_back(x); st.2.take() };
+                let w = { let mut st = sc.st.lock().unwrap(); desync::verif::log("api", "PRODUCE", *k, String::new()); let x = sc.pushed.fetch_add(1, SeqCst); if slow { sc.slow.lock().unwrap().insert(x); } if gated { sc.slow.lock().unwrap().insert(x); sc.gated.lock().unwrap().insert(x); } st.0.push_back(x); st.2.take() };
                 rt::thread::yield_now();
                 if let Some(w) = w { w.wake(); }
             }
@@ -458,7 +473,7 @@ pub fn exec_op(ctx: &Arc<Ctx>, op: &Op, caller: usize, nested: bool, local: &mut
                     // then wake the waker of the LATEST poll
                     let probe = if got % 2 == 0 && PROBE.load(SeqCst) { desync::verif::log("api", "PROBE", *k, String::new()); let w = futures::task::noop_waker(); let mut cx = Context::from_waker(&w); match Pin::new(&mut *s).poll_next(&mut cx) { Poll::Ready(v) => Some(v), Poll::Pending => None } } else { None };
                     match (match probe { Some(v) => v, None => { desync::verif::log("api", "CONSUME", *k, String::new()); block_on(s.next(), None).unwrap() } }) {
-                        Some(v) => { desync::verif::log("api", "CONSUMED", v as usize, String::new()); ctx.streams[*k].received.lock().unwrap().push(v); got += 1; }
+                        Some(v) => { desync::verif::log("api", "CONSUMED", v as usize, String::new()); { let sc = &ctx.streams[*k]; let ws = { let mut g = sc.gate_wakers.lock().unwrap(); sc.received.lock().unwrap().push(v); std::mem::take(&mut *g) }; for w in ws { w.wake(); } } got += 1; }
                         None => { desync::verif::log("api", "CONSUMEDEND", *k, String::new()); ctx.streams[*k].ended_seen.store(true, SeqCst); break; }
                     }
                 }
@@ -708,7 +723,7 @@ fn pipe_process_fut<'a, R: Send + 'a>(ctx: Arc<Ctx>, k: usize, q: usize, p: &'a 
         let _g = Occ(p.mon.clone());
         if occ != 1 { ctx.error("C01", format!("pipe {} processed item {} on object {} while {} other operation(s) in progress", k, item, q, occ - 1)); }
         p.canary = 0xABCD00 + item;
-        CoopYield(false).await;
+        if ctx.streams[k].gated.lock().unwrap().contains(&item) { ConsumerSaw { ctx: ctx.clone(), k, item }.await; } else { CoopYield(false).await; }
         if p.canary != 0xABCD00 + item { ctx.error("C01", format!("pipe {} saw object {} modified while item {} was suspended", k, q, item)); }
         p.canary = 0xC0FFEE;
         ctx.streams[k].processed.lock().unwrap().push(item);
@@ -792,7 +807,7 @@ pub fn make_ctx(prog: &Program, fail_fast: bool, touch_yield: bool) -> Arc<Ctx> 
         prog: prog.clone(), objs, qobjs, mons,
         events: (0..prog.nev).map(|_| EventCell { st: StdMutex::new((false, vec![])) }).collect(),
         gates: (0..prog.ngates).map(|_| Gate { open: rt::sync::Mutex::new(false), cv: rt::sync::Condvar::new() }).collect(),
-        streams: (0..prog.nstreams()).map(|_| Arc::new(StreamCore { st: StdMutex::new((Default::default(), false, None)), pushed: AtomicU64::new(0), released: AtomicBool::new(false), processed: StdMutex::new(vec![]), received: StdMutex::new(vec![]), ended_seen: AtomicBool::new(false), polls_after_gone: AtomicUsize::new(0), slow: StdMutex::new(Default::default()) })).collect(),
+        streams: (0..prog.nstreams()).map(|_| Arc::new(StreamCore { st: StdMutex::new((Default::default(), false, None)), pushed: AtomicU64::new(0), released: AtomicBool::new(false), processed: StdMutex::new(vec![]), received: StdMutex::new(vec![]), ended_seen: AtomicBool::new(false), polls_after_gone: AtomicUsize::new(0), slow: StdMutex::new(Default::default()), gated: StdMutex::new(Default::default()), gate_wakers: StdMutex::new(vec![]) })).collect(),
         clock, ops: StdMutex::new(vec![]), errors: StdMutex::new(vec![]),
         pending: AtomicUsize::new(0), cur_max: AtomicUsize::new(prog.pool), max_ever: AtomicUsize::new(prog.pool), racy_max_change: AtomicBool::new(false), shared_resumers: StdMutex::new(Default::default()), latch: rt::sync::Mutex::new(()), latch_cv: rt::sync::Condvar::new(), fail_fast, touch_yield,
         threads: StdMutex::new(vec![None; prog.callers.len()]), in_try: StdMutex::new(Default::default()),
